@@ -1474,7 +1474,7 @@ impl Scenario for Scan {
         "case = well-framed stream with arbitrary header values (0, 1, 99/100/101/199/200/201/300 and 2..260 packets; \
          thorough up to 20000), payloads of 0..10000 arbitrary bytes or of 80-bit words laid out per the header's data \
          format (or one of the repository's well-framed sample files), 1..6 interleaved links, and a filter (link / FEE / layer-stave present in the stream, absent value, \
-         or none). Each case is run through 3-4 payload-handling paths: `view rdh -d` (payload skipped by seek from a \
+         or none; 1 in 40 streams of 120..350 jumbo packets of 8200..10000 payload bytes; 1 in 6 filtered cases with an ignored -o). Each case is run through 3-4 payload-handling paths: `view rdh -d` (payload skipped by seek from a \
          file, by read-discard from a pipe), `check sanity -S` (skipped), `check sanity its -S` (loaded) and, for \
          word payloads, `view its-readout-frames-data -d` (loaded); under seeded schedules, capped queues and benign \
          short reads / EINTR so that buffer refills and relative seeks cross buffer boundaries. Oracle: independent \
@@ -1540,11 +1540,36 @@ impl Scenario for Scan {
                 from_corpus = true;
             }
         }
+        // 1 in 40 of the arbitrary-payload cases: jumbo packets only (8200..10000 payload bytes each, 120..350 of
+        // them): whole batches of 100 packets of more than 800 KiB
+        let jumbo = !words && !from_corpus && rng.chance(1, 40);
+        if jumbo {
+            let npk = rng.range(120, 350) as usize;
+            let base = gen_arbitrary(&mut rng, npk, 64, nl);
+            let sizes: Vec<usize> = (0..npk).map(|_| rng.range(8200, 10_000) as usize).collect();
+            let mut fill = rng.fork(7);
+            input = rebuild_stream(&base, &mut |i, _, payload| {
+                payload.resize(sizes[i], 0);
+                fill.fill(payload);
+            });
+        }
         let f = filter_from_walk(&input, &mut rng);
+        // 1 in 6 of the filtered cases: an output destination next to the view / check (accepted with a warning
+        // and ignored: in particular no second consumer of the reader's batches)
+        let ignored_o = f != Filter::None && rng.chance(1, 6);
         let mut specs = Vec::new();
         let mut add = |parts: &[&str], im: InputMode, rng: &mut Rng| {
-            let mut p = s(parts);
-            p.extend(f.args());
+            let mut p = if ignored_o {
+                let mut pre = s(&["-o", "@OUT@"]);
+                pre.extend(f.args());
+                pre.extend(s(parts));
+                pre
+            } else {
+                let mut p = s(parts);
+                p.extend(f.args());
+                p
+            };
+            let _ = &mut p;
             let mut sp = specgen::spec(im, &p, input.clone());
             if rng.chance(3, 4) {
                 swarm_schedule(&mut sp, rng, 300 + n as u64 * 4);
@@ -1567,14 +1592,17 @@ impl Scenario for Scan {
             add(&["view", "its-readout-frames-data", "-d"], im, &mut rng);
         }
         let label = format!(
-            "{} | {}",
+            "{}{} | {}",
             if from_corpus {
                 "word payloads (sample files)"
             } else if words {
                 "word payloads"
+            } else if jumbo {
+                "jumbo payloads"
             } else {
                 "arbitrary payloads"
             },
+            if ignored_o { " +ignored -o" } else { "" },
             match f {
                 Filter::None => "no filter",
                 Filter::Link(_) => "link filter",
